@@ -546,6 +546,7 @@ def setstate_lemmas(ex, prop):
 def reduce_lemma(ex, prop, delivery):
     repo = ex.repo
     type_of = z3.Function('type_of', Val, Val)
+    inherits_marker = z3.Function('inherits_marker_class', Val, smt.Bool)      # real (nominal) inheritance from SupportRemoteGetState
     from pyvc.interp_data import cnt_f
 
     def optin_obj(v):
@@ -577,6 +578,17 @@ def reduce_lemma(ex, prop, delivery):
                 return VBool(optin(cl.t))
             raise Undecided(f'issubclass({cl!r}, {t!r})')
         ex_.ghost['__issubclass__'] = issub
+
+        def isinst(ex2, v, ci):
+            # isinstance(x, SupportRemoteGetState) is NOT the opt-in test: the metaclass overrides __subclasscheck__ only, and type.__instancecheck__ looks at
+            # real inheritance without consulting it.  So it is a different predicate (read from the metaclass's body each run).
+            if ci.qualname == SRGS:
+                from .C13 import META
+                if '__instancecheck__' in ex2.repo.cls(META).methods:
+                    raise Undecided('the metaclass of SupportRemoteGetState defines __instancecheck__: isinstance() against the marker class is not modelled')
+                return inherits_marker(type_of(v.t))
+            raise Undecided(f'isinstance(symbolic, {ci.name})')
+        ex_.ghost['__sym_isinstance__'] = isinst
 
         def ordered(ex2, a, k):
             src = a[0]
